@@ -482,7 +482,7 @@ class C19(Prop):
     named_errors = set()                  # error kinds: wrapper vs specific API are compared with each other exactly
     pid = "C19"
     title = "wrappers and JSON"
-    thm_modules = ["PeliteModel.Thm.C19", "PeliteModel.Thm.C19Wrap", "PeliteModel.Thm.C19Json", "PeliteModel.Thm.C19Text", "PeliteModel.Thm.ImageLayout", "PeliteModel.Thm.C19Layout"]
+    thm_modules = ["PeliteModel.Thm.C19", "PeliteModel.Thm.C19Wrap", "PeliteModel.Thm.C19Json", "PeliteModel.Thm.C19Text", "PeliteModel.Thm.C15Guid", "PeliteModel.Thm.ImageLayout", "PeliteModel.Thm.C19Layout"]
     # top-level members of the serialized document that Model/JsonDirs.lean models whole:
     # `jsonsub <k> <field>` prints the member as canonical text on both sides (harness: read back from the
     # real serde_json text, order and duplicate keys kept), `jsontext <k> <field>` its exact printed bytes
